@@ -403,6 +403,7 @@ static void GenCase(Rng& rng, bool thorough, int prod)
 	bool checkedFirst = rng.below(4) != 0; /* 3/4 of the cases start with a result */
 	bool addFirst = rng.below(5) < 2;
 	bool pausing = rng.below(3) == 0; /* a third of the cases pause / resume the checkable */
+	bool skewed = rng.below(12) == 0; /* in one case in twelve some results carry an execution end in the future */
 	bool paused = false;
 	for (int s = 0; s < steps; s++) {
 		/* time: stay, a boundary instant, or a small step */
@@ -428,6 +429,8 @@ static void GenCase(Rng& rng, bool thorough, int prod)
 			long long te = rng.below(4) == 0 ? now - (long long)rng.below(6) : now;
 			if (te < lastTe) te = lastTe;
 			if (te > now) te = now;
+			if (skewed && rng.below(5) == 0) te = now + 1 + (long long)rng.below(6); /* the checker's clock is ahead */
+			if (te < lastTe) te = lastTe;
 			lastTe = te;
 			DoResult(st, te, now);
 			marks.push_back(te + 1);
